@@ -1,6 +1,8 @@
 package props
 
 import (
+	"fmt"
+	"github.com/tobgu/qframe/config/groupby"
 	"testing"
 
 	"github.com/tobgu/qframe"
@@ -94,6 +96,23 @@ func propC07(t *rapid.T) {
 	}
 	d := hx.GenDerived(t, base, steps)
 	in := d.Input(t)
+	// now and then the receiver is an Aggregate result (its columns come with positions of their own; the count column is
+	// made in another way than the others): what it holds is observed, the destination tends to be the count column
+	aggRecv := false
+	if steps > 1 && len(in.Cols) >= 2 && in.N() > 0 && rapid.IntRange(0, 7).Draw(t, "aggreceiver") == 0 {
+		ki := rapid.IntRange(0, len(in.Cols)-1).Draw(t, "aggkeypos")
+		vi := rapid.IntRange(0, len(in.Cols)-1).Draw(t, "aggvalpos")
+		aggs := []qframe.Aggregation{{Fn: "count", Column: in.Cols[vi].Name, As: "zzcount"}}
+		if in.Cols[vi].Kind == hx.KInt && rapid.Bool().Draw(t, "aggsumfirst") {
+			aggs = append([]qframe.Aggregation{{Fn: "sum", Column: in.Cols[vi].Name, As: "zzsum"}}, aggs...)
+		}
+		agg := d.QF.GroupBy(groupby.Columns(in.Cols[ki].Name), groupby.Null(true)).Aggregate(aggs...)
+		if aobs, err := hx.Observe(agg); err == nil && agg.Err == nil && len(aobs.Cols) >= 2 {
+			d.QF, in = agg, hx.WithEnumDecl(aobs, in)
+			d.Route = append(d.Route, fmt.Sprintf("receiver: GroupBy(%q).Aggregate(%v); input %s", in.Cols[0].Name, aggs, in.String()))
+			aggRecv = true
+		}
+	}
 	// now and then the frame has an earlier life that touched its data columns (observed afterwards)
 	if steps > 1 && len(in.Cols) > 0 && rapid.IntRange(0, 5).Draw(t, "history") == 0 {
 		var hist hx.History
@@ -108,6 +127,9 @@ func propC07(t *rapid.T) {
 		expr, broken = breakExpr(t, expr, in)
 	}
 	dst := rapid.SampledFrom([]string{"n1", "n2", in.Cols[0].Name, in.Cols[len(in.Cols)-1].Name, "n1", "unary-temp-0", "const-temp-1"}).Draw(t, "dst")
+	if aggRecv && rapid.Bool().Draw(t, "dstcount") {
+		dst = "zzcount"
+	}
 	badDst := false
 	if rapid.IntRange(0, 19).Draw(t, "baddst") == 0 {
 		dst = rapid.SampledFrom([]string{"", "'q'", "\"q\"", "$v", "$", "'q\nq'", "\"\n\""}).Draw(t, "illegaldst")
